@@ -13,6 +13,37 @@ def _if_with(fi, pred):
     return [n for n in ast.walk(fi.node) if isinstance(n, ast.If) and pred(n)]
 
 
+def _concat_sequence(fi, D, repo):
+    """Names in the list handed to xr.concat(.., dim=<dir>) in the order they end up in it (list literal and appends, in source order;
+    a later literal assignment replaces the list)."""
+    lname = None
+    for c in ast.walk(fi.node):
+        if isinstance(c, ast.Call) and call_name(c) in ("xr.concat", "xarray.concat") and c.args and isinstance(c.args[0], ast.Name) \
+                and kwarg(c, "dim") is not None and repo.const(fi.module, kwarg(c, "dim")) == D:
+            lname = c.args[0].id
+    if lname is None:
+        return []
+    events = []
+    for a in ast.walk(fi.node):
+        if isinstance(a, ast.Assign) and isinstance(a.targets[0], ast.Name) and a.targets[0].id == lname and isinstance(a.value, (ast.List, ast.Tuple)):
+            events.append((a.lineno, a.col_offset, "set", [unparse(e) for e in a.value.elts]))
+        elif isinstance(a, ast.Call) and isinstance(a.func, ast.Attribute) and a.func.attr in ("append", "insert") and unparse(a.func.value) == lname and a.args:
+            if a.func.attr == "append":
+                events.append((a.lineno, a.col_offset, "append", unparse(a.args[0])))
+            else:
+                events.append((a.lineno, a.col_offset, "insert", (repo.const(fi.module, a.args[0]), unparse(a.args[1]) if len(a.args) > 1 else "?")))
+    seq = []
+    for _, _, kind, v in sorted(events, key=lambda e: (e[0], e[1])):
+        if kind == "set":
+            # a literal that repeats names already collected keeps their relative order and adds the new ones where it puts them
+            seq = list(v)
+        elif kind == "append":
+            seq.append(v)
+        elif kind == "insert" and isinstance(v[0], int):
+            seq.insert(v[0], v[1])
+    return seq
+
+
 def run(repo, rep, tier):
     rep.rule("R-C08-5", "the target freq / dir arguments reach the output coordinates unchanged (array coercion only)")
     rep.rule("R-C08-1", "circular padding pairs: the LAST sorted direction relabelled -360 in front when the target reaches below the "
@@ -69,9 +100,17 @@ def run(repo, rep, tier):
                 if isinstance(b, ast.BinOp) and isinstance(b.op, (ast.Add, ast.Sub)) and repo.const(fi.module, b.right) == 360:
                     shift = 360 if isinstance(b.op, ast.Add) else -360
             # position: to_concat = [highest, dsout] (front) or to_concat.append(lowest) (back)
-            front = any(isinstance(a, ast.Assign) and isinstance(a.value, (ast.List, ast.Tuple)) and len(a.value.elts) == 2 and
-                        isinstance(a.value.elts[1], ast.Name) for a in ast.walk(n))
-            back = any(isinstance(c, ast.Call) and isinstance(c.func, ast.Attribute) and c.func.attr == "append" for c in ast.walk(n))
+            # position of the padded copy relative to the data in the list handed to concat: the list is built by a literal and / or
+            # appends, possibly inside the two guards; in source order that gives  [first-pad?] data [second-pad?]
+            padname = None
+            for a in ast.walk(n):
+                if isinstance(a, ast.Assign) and isinstance(a.targets[0], ast.Name) and any(x is isels[0] for x in ast.walk(a.value)):
+                    padname = a.targets[0].id
+            seq_ = _concat_sequence(fi, D, repo)
+            front = back = False
+            if padname in seq_ and OUT in seq_:
+                front = seq_.index(padname) < seq_.index(OUT)
+                back = not front
             sense = (rl[1], type(t.ops[0]).__name__, rr[1], rl[0] == dirp, rr[0].endswith(f".{D}") or rr[0].endswith(f"[{D!r}]"))
             below = rl[1] == "min" and opn is ast.Lt and rr[1] == "min"
             above = rl[1] == "max" and opn is ast.Gt and rr[1] == "max"
